@@ -373,19 +373,24 @@ Definition combine_containers (t : ty) : ty := match cc_top t with Some t' => t'
 (* ------------------------------------------------------------------ declarations *)
 Definition map_param (f : ty -> ty) (p : param) : param :=
   mkParam (p_name p) (f (p_ty p)) (p_kind p) (p_opt p) (option_map f (p_mut p)).
-Definition map_sig (f : ty -> ty) (s : sig) : sig :=
-  mkSig (map (map_param f) (s_params s)) (option_map (map_param f) (s_star s))
-        (option_map (map_param f) (s_starstar s)) (f (s_ret s)) (map f (s_exc s)).
+(* position-wise: parameters (type and mutated type), return type, exceptions *)
+Definition map_sig3 (fp fr fe : ty -> ty) (s : sig) : sig :=
+  mkSig (map (map_param fp) (s_params s)) (option_map (map_param fp) (s_star s))
+        (option_map (map_param fp) (s_starstar s)) (fr (s_ret s)) (map fe (s_exc s)).
+Definition map_sig (f : ty -> ty) : sig -> sig := map_sig3 f f f.
 Definition map_func (g : sig -> sig) (fn : func) : func :=
   mkFunc (f_name fn) (f_kind fn) (map g (f_sigs fn)).
 Definition map_const (f : ty -> ty) (c : const) : const := mkConst (k_name c) (f (k_ty c)).
 Definition map_class (gf : cid -> func -> func) (gc : const -> const) (c : class) : class :=
   mkClass (cl_name c) (cl_bases c) (map (gf (cl_name c)) (cl_methods c)) (map gc (cl_consts c)).
+(* position-wise over a unit: parameters, returns, exceptions, constants *)
+Definition map_unit4 (fp fr fe fc : ty -> ty) (u : unit_) : unit_ :=
+  mkUnit (map (map_const fc) (u_consts u))
+         (map (map_class (fun _ => map_func (map_sig3 fp fr fe)) (map_const fc)) (u_classes u))
+         (map (map_func (map_sig3 fp fr fe)) (u_funcs u)).
 (* a pass acting on every type position of the unit *)
-Definition map_ty_unit (f : ty -> ty) (u : unit_) : unit_ :=
-  mkUnit (map (map_const f) (u_consts u))
-         (map (map_class (fun _ => map_func (map_sig f)) (map_const f)) (u_classes u))
-         (map (map_func (map_sig f)) (u_funcs u)).
+Definition map_ty_unit (f : ty -> ty) : unit_ -> unit_ := map_unit4 f f f f.
+Definition same_ty (t : ty) : ty := t.
 (* a pass acting on whole functions (methods included) *)
 Definition map_funcs_unit (g : func -> func) (u : unit_) : unit_ :=
   mkUnit (u_consts u)
@@ -447,13 +452,8 @@ Definition normalize_self (u : unit_) : unit_ :=
          (u_funcs u).
 
 (* optimize.AdjustReturnAndConstantGenericType: return types and constants only *)
-Definition adjust_ret_sig (s : sig) : sig :=
-  mkSig (s_params s) (s_star s) (s_starstar s) (adjust_generic_type (s_ret s)) (s_exc s).
-Definition adjust_return_and_constant (u : unit_) : unit_ :=
-  mkUnit (map (map_const adjust_generic_type) (u_consts u))
-         (map (map_class (fun _ => map_func adjust_ret_sig) (map_const adjust_generic_type))
-              (u_classes u))
-         (map (map_func adjust_ret_sig) (u_funcs u)).
+Definition adjust_return_and_constant : unit_ -> unit_ :=
+  map_unit4 same_ty adjust_generic_type same_ty adjust_generic_type.
 
 (* optimize.AbsorbMutableParameters.VisitParameter *)
 Definition absorb_param (p : param) : param :=
@@ -467,8 +467,9 @@ Definition absorb_sig (s : sig) : sig :=
 
 (* optimize.MergeTypeParameters on template-free signatures: `sig.template == new_template`
    compares a tuple with a list, so VisitSignature always takes the branch that ends in
-   .Visit(SimplifyUnions()) *)
-Definition merge_type_parameters_sig : sig -> sig := map_sig simplify_unions.
+   .Visit(SimplifyUnions()); constants are not touched *)
+Definition merge_type_parameters : unit_ -> unit_ :=
+  map_unit4 simplify_unions simplify_unions simplify_unions same_ty.
 
 (* visitors.AdjustSelf (force=False) inside class [cls], method kind [mk] *)
 Definition adjust_self_param (cls : cid) (mk : nat) (p : param) : param :=
@@ -507,8 +508,9 @@ Definition enabled (o : opts) (f : flag) : bool :=
   | FCanDoLookup => o_can_do_lookup o
   end.
 
-(* None: a pass outside the model (lossy ones) or CombineContainers fuel exhaustion *)
-Definition run_pass (o : opts) (Hd : hier) (p : pass) (u : unit_) : option unit_ :=
+(* None: a pass outside the model (lossy ones) or CombineContainers fuel exhaustion.
+   [cs] selects the SimplifyContainers variant. *)
+Definition run_pass (cs : bool) (o : opts) (Hd : hier) (p : pass) (u : unit_) : option unit_ :=
   match p with
   | PNormalizeGenericSelfTypes => Some (normalize_self u)
   | PRemoveDuplicates => Some (map_funcs_unit remove_duplicates_f u)
@@ -517,32 +519,34 @@ Definition run_pass (o : opts) (Hd : hier) (p : pass) (u : unit_) : option unit_
   | PCombineContainers =>
       if forallb (fun t => is_some (cc_top t)) (types_of_unit u)
       then Some (map_ty_unit combine_containers u) else None
-  | PSimplifyContainers => Some (map_ty_unit (simplify_containers sc_collapse_single) u)
+  | PSimplifyContainers => Some (map_ty_unit (simplify_containers cs) u)
   | PSimplifyUnionsWithSuperclasses => Some (map_ty_unit (simplify_superclasses (hier_of u ++ Hd)) u)
   | PFindCommonSuperClasses => None
   | PUseAbcs => None
   | PCollapseLongUnions => Some (map_ty_unit (collapse_long_unions (o_max_union o)) u)
   | PAdjustReturnAndConstantGenericType => Some (adjust_return_and_constant u)
   | PAbsorbMutableParameters => Some (map_funcs_unit (map_func absorb_sig) u)
-  | PMergeTypeParameters => Some (map_funcs_unit (map_func merge_type_parameters_sig) u)
+  | PMergeTypeParameters => Some (merge_type_parameters u)
   | PAdjustSelf => Some (adjust_self u)
   | PLookupClasses => Some (resolve_unit u)
   end.
 
-Fixpoint run_passes (o : opts) (Hd : hier) (ps : list (list flag * pass)) (u : unit_)
+Fixpoint run_passes (cs : bool) (o : opts) (Hd : hier) (ps : list (list flag * pass)) (u : unit_)
   : option unit_ :=
   match ps with
   | [] => Some u
   | (fl, p) :: r =>
     if forallb (enabled o) fl then
-      match run_pass o Hd p u with
-      | Some u' => run_passes o Hd r u'
+      match run_pass cs o Hd p u with
+      | Some u' => run_passes cs o Hd r u'
       | None => None
       end
-    else run_passes o Hd r u
+    else run_passes cs o Hd r u
   end.
 
-Definition opt (o : opts) (Hd : hier) (u : unit_) : option unit_ := run_passes o Hd passes u.
+(* [cs]: SimplifyContainers also collapses one-member unions (regenerated from the class body) *)
+Definition opt (o : opts) (Hd : hier) (u : unit_) : option unit_ :=
+  run_passes sc_collapse_single o Hd passes u.
 
 (* Optimize applied to a bare type (pretty_printer_base.print_pytd, PyTDFunction return joining):
    the declaration-level visitors find nothing to act on; deps is None there. *)
